@@ -44,7 +44,7 @@ def _exp_int(exp):
 
 
 def _exp_str(exp):
-    m = re.search(r"AStr\s+\[([\d;\s]*)\]", exp or "")
+    m = re.search(r"AStr\s+\[([\d;\s]*)\]", (exp or "").replace("%Z", ""))
     if not m:
         return None
     return "".join(chr(int(x)) for x in re.findall(r"\d+", m.group(1)))
@@ -82,7 +82,7 @@ def p_literal_binoct(case, rec, exp):
     if case.get("k") != "lit":
         return False
     t = _s(case)
-    if not re.fullmatch(r"0[bB][01_]+|0[oO][0-7_]+", t):
+    if not (re.fullmatch(r"0[bB][01_]+|0[oO][0-7_]+", t) or (re.fullmatch(r"0[xX][0-9a-fA-F_]+", t) and "_" in t)):
         return False
     e = _exp_int(exp)
     return e is not None and e >= 0 and int(t.replace("_", ""), 0) >= 2 ** 63 and _obs_int(rec) == -1
@@ -240,7 +240,17 @@ def p_nel_whitespace(case, rec, exp):
     return _exp_int(exp) == NAN and _obs_int(rec) not in (None, NAN, -1)
 
 
+def p_sign_after_radix_prefix(case, rec, exp):
+    if case.get("k") != "num" or case.get("sf") == "max":
+        return False
+    t = "".join(chr(u) for u in _trim(case.get("s", [])))
+    if not re.fullmatch(r"0[xX][+-][0-9a-fA-F]+|0[bB][+-][01]+|0[oO][+-][0-7]+", t):
+        return False
+    return _exp_int(exp) == NAN and _obs_int(rec) not in (None, NAN, -1)
+
+
 PREDICATES = {
+    "C12.sign_after_radix_prefix_accepted": p_sign_after_radix_prefix,
     "C12.number_radix_prefix_ge_2p63_nan": p_number_radix_prefix,
     "C12.literal_bin_oct_ge_2p63_syntaxerror": p_literal_binoct,
     "C12.hex_literal_ge_2p63_rounded_per_digit": p_hex_literal_multiround,
@@ -359,8 +369,8 @@ CFG = {
     "prop_file": "Properties/C12.v",
     "run_modules": ["Verif.C12.Run"],
     "coq_dirs": ["C12"],
-    "n": {"quick": 6000, "thorough": 400000},
-    "shard": 200,
+    "n": {"quick": 5000, "thorough": 400000},
+    "shard": 320,
     "level": "proof",
     "stages": [stage],
     "predicates": PREDICATES,
@@ -372,9 +382,9 @@ CFG = {
              "+-1 in the last place, up to 1200 digits), long digit strings with exponents, grammar edge cases and mutations, "
              "radix-prefixed strings of 1..80 digits, integers that force a rounding decision at 53 bits; non-trivial = x finite "
              "non-zero (formatting) / input contains a digit (parsing); distinct = by hash of the case"),
-    "theorem_names": ["parse_decimal_nearest_even", "parse_decimal_overflow_iff", "parse_decimal_wellformed",
-                      "fixed_correct", "shortest_roundtrips", "shortest_closest_of_neighbours",
-                      "shortest_minimal_partial", "radix_check_sound", "digs_length", "divmod_spec"],
+    "theorem_names": ["parse_decimal_nearest_even", "parse_decimal_wellformed", "parse_decimal_pack", "divmod_spec",
+                      "fixed_correct", "shortest_roundtrips_and_minimal_partial", "dec_pt_sound", "radix_check_sound",
+                      "digs_length"],
     "allowed_axioms": [],
     "trusted_base": [
         "Coq 8.16.1 kernel + vm_compute (no native_compute); theorems closed under the global context (no axioms)",
@@ -397,7 +407,7 @@ CFG = {
                  "from 2^1024-2^970 (nearest_even, overflow_iff, wellformed); toFixed/toExponential/toPrecision digit selection is proved to "
                  "minimise the error and take the larger n on ties for every digit count; shortest(x) is proved to round-trip and to be the "
                  "closer neighbour (minimality only against the two neighbouring candidates of each shorter length: partial); the "
-                 "toString(radix) validator is proved sound. goja is tied to these functions on every run: 6000 (quick) / 400000 (thorough) "
+                 "toString(radix) validator is proved sound. goja is tied to these functions on every run: 5000 (quick) / 400000 (thorough) "
                  "generated conversions incl. big-integer halfway cases up to 1200 digits are executed on /repo and recomputed by vm_compute."),
         "note": ("trusted: Coq kernel + vm_compute; the hand-written specification functions (layouts and grammars are definitions, not "
                  "theorems); the Go harness; goja's dtoa/Grisu code itself is covered by correspondence on samples, not by proof"),
